@@ -21,7 +21,7 @@ impl Prop for C01 {
         "exploration"
     }
     fn rule(&self) -> String {
-        "run = seeded valid writer history (start/append/end/add interleaved, boundary-biased piece sizes relative to the variant's constants) on one of the variants s0/s1/prodv/prod x 4 layer sets x level 0..11 x 1..4 recipients (one encrypted run in 30: 17, 84, 85, 86, 128, 300 or 1000 recipients; one scaled run in 25: 65..300 files of which 1-3 stay open across dozens of others; one in 60: a file with 255..4100 - thorough: 65537 - non-contiguous runs), written to the simulated sink with full transfers, then read back through the simulated source; the first 4104 runs enumerate every content length 0..512 on s0 for 1- and 2-file archives x 4 layer sets. Oracle: listing == model names, size, bytes and stored SHA-256 per file == abstract map model. distinct_nontrivial counts distinct signatures (variant, layers, #files, interleaved, alignment class of content length vs CHUNK and BLOCK, alignment class of the encryption-layer plaintext vs CHUNK, alignment class of the file-layer stream length vs BLOCK (compression) or CHUNK, name kinds). Half of the production-size runs are ALIGNED by a solver: a model of the file-layer stream length (blocks + marker + index footer) grows one piece so that the stream handed to the compression layer is exactly k*4 MiB (or +1, -1), respectively the encryption-layer plaintext exactly k*128 KiB (or +1..5 - the footer length field alone or split in the last chunk -, 15, 16, 17, -1).".into()
+        "run = seeded valid writer history (start/append/end/add interleaved, boundary-biased piece sizes relative to the variant's constants) on one of the variants s0/s1/prodv/prod x 4 layer sets x level 0..11 x 1..4 recipients (one encrypted run in 30: 17, 84, 85, 86, 128, 300 or 1000 recipients; one scaled run in 25: 65..300 files of which 1-3 stay open across dozens of others; one in 60: a file with 255..4100 - thorough: 65537 - non-contiguous runs; one compressed production-size run in 10: a 4-5 MiB file of incompressible data appended in pieces of 64..512 bytes, i.e. 8000..80000 appends into one compression block, now and then with a flush after each), written to the simulated sink with full transfers, then read back through the simulated source; the first 4104 runs enumerate every content length 0..512 on s0 for 1- and 2-file archives x 4 layer sets. Oracle: listing == model names, size, bytes and stored SHA-256 per file == abstract map model. distinct_nontrivial counts distinct signatures (variant, layers, #files, interleaved, alignment class of content length vs CHUNK and BLOCK, alignment class of the encryption-layer plaintext vs CHUNK, alignment class of the file-layer stream length vs BLOCK (compression) or CHUNK, name kinds). Half of the production-size runs are ALIGNED by a solver: a model of the file-layer stream length (blocks + marker + index footer) grows one piece so that the stream handed to the compression layer is exactly k*4 MiB (or +1, -1), respectively the encryption-layer plaintext exactly k*128 KiB (or +1..5 - the footer length field alone or split in the last chunk -, 15, 16, 17, -1).".into()
     }
     fn assumptions(&self) -> Vec<String> {
         vec![
@@ -106,6 +106,29 @@ impl Prop for C01 {
             // one file with hundreds (now and then more than 65535) of non-contiguous runs
             let runs = *rng.pick(&[255usize, 256, 257, 300, 1000, if tier == Tier::Thorough { 65_537 } else { 4_100 }]);
             ops = gen_many_runs(&mut rng, runs);
+        }
+        if big && cfg.comp() && rng.chance(1, 10) {
+            // production constants: ONE compression block fed by thousands of small appends of incompressible data
+            // (every append costs the streaming compressor a few bytes), now and then with a flush after each
+            let flush_each = rng.chance(1, 6);
+            // (the high levels cost seconds per thousand flushes: kept for the plain appends, with larger pieces)
+            cfg.level = if flush_each { *rng.pick(&[0u32, 1, 2]) } else { *rng.pick(&[0u32, 1, 1, 2, 5, 9]) };
+            let piece = if cfg.level >= 5 { 512 } else { *rng.pick(&[64usize, 200, 256, 512]) };
+            let total = vc.block as usize + rng.usize_below(vc.block as usize / 4);
+            let mut v = vec![WOp::Start { f: 0, name: Name::lit("dense") }];
+            let mut left = total;
+            while left > 0 {
+                let n = piece.min(left);
+                v.push(WOp::Append { f: 0, data: Data::Rand { n, seed: rng.u64() }, src: Src::exact() });
+                if flush_each {
+                    v.push(WOp::Flush);
+                }
+                left -= n;
+            }
+            v.push(WOp::End { f: 0 });
+            v.push(WOp::Finalize);
+            ops = v;
+            aligned = 0;
         }
         maybe_many_recipients(&mut rng, &mut cfg, 30);
         let mut case = Case::new("C01", cfg, ops);
